@@ -192,3 +192,28 @@ package bech32
 //@   panics  never
 //@   loop 1 invariant 0 <= i && i <= hrpLen && forall(k, 0, i, 33 <= s[k] && s[k] <= 126)
 //@   loop 2 invariant hrpLen+1 <= i && i <= len(s) && forall(k, hrpLen+1, i, s[k] < 128)
+
+//@ spec encodable(hrp string, n int) bool = 1 <= len(hrp) && hrpchars(hrp, len(hrp)) && !(hasupper(hrp) && haslower(hrp)) && len(hrp)+(n*8+4)/5+7 <= 90
+//@ spec cased(up bool, c byte) byte = ite(up, toupper(c), c)
+
+//@ func Encode(hrp string, src []byte) (r string, err error)
+//@   repr byte uint32
+//@   opaque pmz
+//@   requires len(src) <= 1<<40 && len(hrp) <= 1<<40
+//@   note     lengths <= 2^40: near 2^60 bytes EncodedLen's n*8 and the length sum would overflow int; such inputs cannot exist in memory
+//@   let lhrp = arg(bech32CreateChecksum, 1, 0)
+//@   let d5 = arg(bech32CreateChecksum, 1, 1)
+//@   ensures isnil(err) == encodable(hrp, len(src))
+//@   ensures implies(!isnil(err), len(r) == 0)
+//@   ensures implies(isnil(err), len(r) == len(hrp)+1+(len(src)*8+4)/5+6)
+//@   ensures implies(isnil(err), forall(k, 0, len(hrp), r[k] == hrp[k]) && r[len(hrp)] == '1')
+//@   ensures implies(isnil(err), len(lhrp) == len(hrp) && forall(k, 0, len(hrp), lhrp[k] == tolower(hrp[k])))
+//@   ensures implies(isnil(err), len(d5) == (len(src)*8+4)/5)
+//@   ensures implies(isnil(err), forall(g, 0, len(src)/5, forall(m, 0, 8, d5[8*g+m] == base32.symat(src, g, m))))
+//@   ensures implies(isnil(err), forall(m, 0, 8, implies(8*(len(src)/5)+m < len(d5), d5[8*(len(src)/5)+m] == base32.symat(src, len(src)/5, m))))
+//@   ensures implies(isnil(err) && !hasupper(hrp), forall(k, 0, len(d5), r[len(hrp)+1+k] == CHARSET()[d5[k]]))
+//@   ensures implies(isnil(err) && hasupper(hrp), forall(k, 0, len(d5), r[len(hrp)+1+k] == toupper(CHARSET()[d5[k]])))
+//@   ensures implies(isnil(err) && !hasupper(hrp), forall(i, 0, 6, r[len(hrp)+1+len(d5)+i] == CHARSET()[byte((pmfin(lhrp, d5)>>(5*(5-i)))&31)]))
+//@   ensures implies(isnil(err) && hasupper(hrp), forall(i, 0, 6, r[len(hrp)+1+len(d5)+i] == toupper(CHARSET()[byte((pmfin(lhrp, d5)>>(5*(5-i)))&31)])))
+//@   panics  never
+//@   loop 1 invariant 0 <= _i1 && _i1 <= len(hrp) && forall(k, 0, _i1, 33 <= hrp[k] && hrp[k] <= 126)
